@@ -61,6 +61,13 @@ terms of the MIT license. A copy of the license can be found in the file
 #endif
 #endif
 
+#if defined(MI_VERIF_HOOKS)
+// verification hook (stage 1): may redefine `mi_atomic(name)` so that every atomic operation becomes observable
+#define MI_VERIF_HOOKS_STAGE 1
+#include MI_VERIF_HOOKS
+#undef MI_VERIF_HOOKS_STAGE
+#endif
+
 // Various defines for all used memory orders in mimalloc
 #define mi_atomic_cas_weak(p,expected,desired,mem_success,mem_fail)  \
   mi_atomic(compare_exchange_weak_explicit)(p,expected,desired,mem_success,mem_fail)
@@ -550,5 +557,11 @@ static inline void mi_lock_done(mi_lock_t* lock) {
 
 #endif
 
+#if defined(MI_VERIF_HOOKS)
+// verification hook (stage 2): may wrap `mi_atomic_yield` and the `mi_lock_*` primitives
+#define MI_VERIF_HOOKS_STAGE 2
+#include MI_VERIF_HOOKS
+#undef MI_VERIF_HOOKS_STAGE
+#endif
 
 #endif // __MIMALLOC_ATOMIC_H
